@@ -2,7 +2,7 @@ import H2T.Props.C06
 import H2T.Props.C17
 import H2T.Props.C20
 import H2T.Lemmas.WrapInv
-import H2T.Lemmas.TableTotal
+import H2T.Lemmas.DomTotal
 
 /-! # C01 — rendering is total: never panics, never hangs
 
@@ -24,10 +24,14 @@ configuration, decorator and width (`render_total`): the `pre_depth` counter can
 `compile` emits are balanced (`Balance.compile_frame`); column allocation always returns; stacked rows are total;
 border collapsing always finds the previous line it expects — with borders the last line before a row is a rule, without
 borders no cell ever holds a rule; column indices stay in bounds under `tableOk` (every row's cells lie inside the
-table's `ncols` columns — what `RenderTable::new` computes; the driver evaluates `tableOk` on every tree `build`
-produces, so the hypothesis is measured on every correspondence case).  DOM → render tree (`build`) and the CSS parser
-are outside `render_total`; they are tied by correspondence, where the model reports `panic`/`hang` as outcome classes
-and the implementation must agree on every generated case. -/
+table's `ncols` columns — which **every tree `build` produces satisfies** (`build_trees_renderable`: `RenderTable::new`
+gives a table as many columns as its widest row; `insert_child`, `colspan=0` repair and rank remapping preserve it);
+the driver also evaluates `tableOk` on every built tree).  Together with "the selector matcher never panics, so
+`build` never fails", this gives the **end-to-end statement on the model**, `pipeline_total`: for every DOM rooted at a
+document node, every configuration, decorator, width and agent/user/document CSS, the outcome is lines, `TooNarrow`, a
+CSS parse error, or the CSS parser running out of fuel — never a panic, never a hang of the renderer.  What remains
+outside: the CSS parser's fuel (its `hang` outcome is not yet proved unreachable; correspondence covers it), html5ever,
+and stack/allocation/time (see above). -/
 
 namespace H2T.C01
 
@@ -179,6 +183,27 @@ theorem render_no_panic_no_hang (cfg : Cfg) (d : Deco) (w : Nat) (tree : RNode) 
     (in the library `RenderTable::new` rules this out) -/
 example : (match renderTree {} Deco.plain 20 (.table {} [.row {} [.cell {} 1 [.text {} (strCh "a")], .cell {} 1 [.text {} (strCh "b")]]] 1) with
     | .error (.panic _) => true | _ => false) = true := by decide +kernel
+
+/-- **every render tree the DOM → render tree pass produces is renderable** (satisfies the hypothesis of `render_total`) -/
+theorem build_trees_renderable (bc : BuildCfg) (n : Node) (up : List Css.Frame) (idx : Nat) (r : RNode)
+    (h : build bc up idx n = some (some r)) : tableOk r = true :=
+  build_ok bc n up idx r h
+
+/-- the DOM → render tree pass never fails (the model's `computed_style` panic outcome is unreachable) -/
+theorem build_never_fails (bc : BuildCfg) (n : Node) (up : List Css.Frame) (idx : Nat) : ∃ r, build bc up idx n = some r :=
+  build_some bc n up idx
+
+/-- **C01 on the whole model pipeline** (DOM → style → render tree → lines) -/
+theorem pipeline_total (cfg : Cfg) (d : Deco) (w : Nat) (useDoc : Bool) (agentCss userCss : Option (List Char))
+    (ci : CharInfo) (depth : Nat) (kids : List Node) :
+    match renderDom cfg d w useDoc agentCss userCss ci depth (.doc kids) with
+    | .lines _ => True
+    | .narrow => True
+    | .cssErr => True
+    | .hang s => s = "css parser" ∨ s = "css parser (document)"
+    | .panic _ => False := by
+  have := renderDom_acceptable cfg d w useDoc agentCss userCss ci depth kids
+  cases h : renderDom cfg d w useDoc agentCss userCss ci depth (.doc kids) <;> rw [h] at this <;> exact this
 
 /-- in particular the outcome is never a panic or a hang -/
 theorem render_table_free_no_panic_no_hang (cfg : Cfg) (d : Deco) (w : Nat) (tree : RNode) (h : noTable tree = true) :
